@@ -256,7 +256,20 @@ impl PredicatePushdownRule {
                 let refs_left = pred_tables.iter().any(|t| left_tables.contains(*t));
                 let refs_right = pred_tables.iter().any(|t| right_tables.contains(*t));
 
-                if refs_left && !refs_right {
+                // A WHERE predicate may move below the join only on a side whose rows the join
+                // preserves or drops as a whole: below the NULL-extended side of an outer join it
+                // would let rows through as NULL-padded that the WHERE must remove.
+                use crate::sql::ast::JoinType;
+                let can_push_left = matches!(
+                    join.join_type,
+                    JoinType::Inner | JoinType::Cross | JoinType::Left
+                );
+                let can_push_right = matches!(
+                    join.join_type,
+                    JoinType::Inner | JoinType::Cross | JoinType::Right
+                );
+
+                if refs_left && !refs_right && can_push_left {
                     let new_filter = crate::sql::planner::LogicalFilter {
                         input: join.left,
                         predicate,
@@ -269,7 +282,7 @@ impl PredicatePushdownRule {
                         condition: join.condition,
                     };
                     Ok(Some((arena.alloc(LogicalOperator::Join(new_join)), None)))
-                } else if refs_right && !refs_left {
+                } else if refs_right && !refs_left && can_push_right {
                     let new_filter = crate::sql::planner::LogicalFilter {
                         input: join.right,
                         predicate,
@@ -358,6 +371,42 @@ impl PredicatePushdownRule {
                     for arg in args.iter() {
                         self.collect_expr_tables(arg.value, tables);
                     }
+                }
+            }
+            Expr::Between {
+                expr, low, high, ..
+            } => {
+                self.collect_expr_tables(expr, tables);
+                self.collect_expr_tables(low, tables);
+                self.collect_expr_tables(high, tables);
+            }
+            Expr::InList { expr, list, .. } => {
+                self.collect_expr_tables(expr, tables);
+                for item in list.iter() {
+                    self.collect_expr_tables(item, tables);
+                }
+            }
+            Expr::Like { expr, pattern, .. } => {
+                self.collect_expr_tables(expr, tables);
+                self.collect_expr_tables(pattern, tables);
+            }
+            Expr::IsNull { expr, .. } | Expr::Cast { expr, .. } => {
+                self.collect_expr_tables(expr, tables);
+            }
+            Expr::Case {
+                operand,
+                conditions,
+                else_result,
+            } => {
+                if let Some(op) = operand {
+                    self.collect_expr_tables(op, tables);
+                }
+                for clause in conditions.iter() {
+                    self.collect_expr_tables(clause.condition, tables);
+                    self.collect_expr_tables(clause.result, tables);
+                }
+                if let Some(else_expr) = else_result {
+                    self.collect_expr_tables(else_expr, tables);
                 }
             }
             _ => {}
